@@ -20,7 +20,7 @@ int main() {
   { const GL& g = gl(); Q s0 = 0, s2 = 0, s78 = 0; for (int i = 0; i < GL::N; ++i) { s0 += g.w[i]; s2 += g.w[i] * g.x[i] * g.x[i]; s78 += g.w[i] * powq(g.x[i], 78); }
     chk("gl.sum", s0, 2, 1e-32Q); chk("gl.x2", s2, Q(2) / 3, 1e-32Q); chk("gl.x78", s78, Q(2) / 79, 1e-31Q); }
   struct EF { double a, f; } ells[] = {{6378137, 1 / 298.257223563}, {6378137, 0}, {6378137, -1 / 298.257223563}, {6378137, 0.01}, {6378137, -0.01},
-    {6378137, 0.2}, {6378137, -0.2}, {6378137, 0.5}, {6378137, -0.5}, {1, 1 / 150.0}, {1e9, -1 / 150.0}, {6378137, 0.1}, {6378137, -0.05}};
+    {6378137, 0.2}, {6378137, -0.2}, {6378137, 0.5}, {6378137, -0.5}, {1, 1 / 150.0}, {1e9, -1 / 150.0}, {6378137, 0.1}, {6378137, -0.05}, {6378137, 0.75}, {6378137, -1.0}, {6378137, 0.3}};
   double lats[] = {-89.9999, -45, -1e-9, 0, 1e-9, 30, 30 + 1e-9, 30 + 1e-6, 60, 89, 89.9999};
   for (auto ef : ells) {
     Ell E(ef.a, ef.f);
